@@ -111,6 +111,7 @@ def trace_cfg(opts):
   TailNeedsEmpty = %s
   TooBigFirst = %s
   TieBreakByOrder = %s
+  RevertOrphanTransfer = %s
   InputSet = {}
   Targets = {%s}
   MaxN = %d
@@ -122,7 +123,7 @@ def trace_cfg(opts):
 SPECIFICATION TSpec
 INVARIANT Progress
 CHECK_DEADLOCK FALSE
-''' % (k['MinWait'], k['HeadReliefChecksProc'], k['TooBigUsesTotal'], k['EarlyByShardCount'], k['TailNeedsEmpty'], k['TooBigFirst'], k['TieBreakByOrder'],
+''' % (k['MinWait'], k['HeadReliefChecksProc'], k['TooBigUsesTotal'], k['EarlyByShardCount'], k['TailNeedsEmpty'], k['TooBigFirst'], k['TieBreakByOrder'], k['RevertOrphanTransfer'],
        ', '.join(str(t) for t in range(1, NT + 1)), MAXN)
     return mod, cfg
 
@@ -137,6 +138,7 @@ def model_cfg():
   TailNeedsEmpty = %s
   TooBigFirst = %s
   TieBreakByOrder = %s
+  RevertOrphanTransfer = %s
   InputSet = {}
   Targets = {1, 2}
   MaxN = 3
@@ -149,7 +151,7 @@ SPECIFICATION KSpec
 INVARIANT TypeK
 PROPERTIES NoGap
 CHECK_DEADLOCK FALSE
-''' % (k['MinWait'], k['HeadReliefChecksProc'], k['TooBigUsesTotal'], k['EarlyByShardCount'], k['TailNeedsEmpty'], k['TooBigFirst'], k['TieBreakByOrder'])
+''' % (k['MinWait'], k['HeadReliefChecksProc'], k['TooBigUsesTotal'], k['EarlyByShardCount'], k['TailNeedsEmpty'], k['TooBigFirst'], k['TieBreakByOrder'], k['RevertOrphanTransfer'])
 
 
 def run_loop(prop, tier, scratch, faults, replay=None):
